@@ -97,9 +97,11 @@ fn predicates(t: &Type) -> u8 {
     (t.is_function() as u8) | ((t.is_tuple() as u8) << 1) | ((t.is_mut() as u8) << 2) | ((t.can_be_indexed() as u8) << 3) | ((t.is_struct() as u8) << 4) | ((t.is_iterator() as u8) << 5)
 }
 fn same_u8(a: &u8, b: &u8) -> bool { a == b }
-fold_order!(fold_order_predicates_a, predicates, same_u8, [T_U_FUNS, T_U_TUPS]);
+fold_order!(fold_order_predicates_a1, predicates, same_u8, [T_U_FUNS]);
+fold_order!(fold_order_predicates_a2, predicates, same_u8, [T_U_TUPS]);
 fold_order!(fold_order_predicates_b, predicates, same_u8, [T_U_MUTS, T_U_ARRS]);
-fold_order!(fold_order_predicates_c, predicates, same_u8, [T_U_STRUCTS, T_U_ARR_MUT, T_U_INT_ARR_INT]);
+fold_order!(fold_order_predicates_c, predicates, same_u8, [T_U_STRUCTS]);
+fold_order!(fold_order_predicates_d, predicates, same_u8, [T_U_ARR_MUT, T_U_INT_ARR_INT]);
 
 /// a union of tuples with three different lengths: the minimum does not depend on the order
 fn min_len_three(p: u8) {
@@ -143,10 +145,14 @@ macro_rules! equal_harness {
         pub fn $name() { $( equal_across_orders($t); )* set_order(255); kani::cover!(true); }
     };
 }
-equal_harness!(equal_types_across_orders_a, T_U_INT_FLOAT_STR, T_U_INT_ARR_INT);
-equal_harness!(equal_types_across_orders_b, T_U_ARRS, T_ARR_U_INT_FLOAT);
-equal_harness!(equal_types_across_orders_c, T_U_STRUCTS, T_ST_AB);
-equal_harness!(equal_types_across_orders_d, T_U_FUNS, T_U_MUTS);
+equal_harness!(equal_types_across_orders_a1, T_U_INT_FLOAT_STR);
+equal_harness!(equal_types_across_orders_a2, T_U_INT_ARR_INT);
+equal_harness!(equal_types_across_orders_b1, T_U_ARRS);
+equal_harness!(equal_types_across_orders_b2, T_ARR_U_INT_FLOAT);
+equal_harness!(equal_types_across_orders_c1, T_U_STRUCTS);
+equal_harness!(equal_types_across_orders_c2, T_ST_AB);
+equal_harness!(equal_types_across_orders_d1, T_U_FUNS);
+equal_harness!(equal_types_across_orders_d2, T_U_MUTS);
 
 /// Hash is consistent with Eq (the container model hides the hasher, so this is checked directly,
 /// with an order-sensitive reference hasher)
@@ -166,27 +172,28 @@ fn h(t: &Type) -> u64 {
     t.hash(&mut s);
     s.finish()
 }
-#[kani::proof]
-#[kani::unwind(10)]
-#[kani::stub(alloc::fmt::format, crate::verif_common::stub_format)]
-pub fn hash_consistent_with_eq() {
-    const TS: [Ty; 6] = [T_U_INT_FLOAT_STR, T_ST_AB, T_U_STRUCTS, T_U_INT_ARR_INT, T_ST_AB_ANY, T_ARR_U_INT_FLOAT];
-    let mut k = 0;
-    while k < TS.len() {
-        let a = variant(TS[k], 0);
-        let ha = h(&a);
-        let mut i = 1u8;
-        while i < 5 {
-            let b = variant(TS[k], i);
-            assert!(a == b);
-            assert!(h(&b) == ha);
-            i += 1;
-        }
-        k += 1;
+fn hash_eq(t: Ty) {
+    let a = variant(t, 0);
+    let ha = h(&a);
+    let mut i = 1u8;
+    while i < 5 {
+        let b = variant(t, i);
+        assert!(a == b);
+        assert!(h(&b) == ha);
+        i += 1;
     }
-    set_order(255);
-    kani::cover!(true);
 }
+macro_rules! hash_harness {
+    ($name:ident, $($t:expr),*) => {
+        #[kani::proof]
+        #[kani::unwind(10)]
+        #[kani::stub(alloc::fmt::format, crate::verif_common::stub_format)]
+        pub fn $name() { $( hash_eq($t); )* set_order(255); kani::cover!(true); }
+    };
+}
+hash_harness!(hash_consistent_with_eq_a, T_U_INT_FLOAT_STR, T_ST_AB);
+hash_harness!(hash_consistent_with_eq_b, T_U_STRUCTS, T_U_INT_ARR_INT);
+hash_harness!(hash_consistent_with_eq_c, T_ST_AB_ANY, T_ARR_U_INT_FLOAT);
 
 /// the default value of a type (observable as the payload of an exhausted iterator) does not
 /// depend on the iteration order
